@@ -16,6 +16,24 @@ func init() {
 	register("regex", opRegex)
 	register("dfa_accept", opDFAAccept)
 	register("regex_parse", opRegexParse)
+	register("regex_ast", opRegexAST)
+}
+
+// opRegexAST dumps the syntax tree of the direct route with nullable / firstpos / lastpos / followpos and the automaton built from it.
+func opRegexAST(req request) response {
+	pattern := str(req, "pattern")
+	res := response{"outcome": "ok"}
+	res["ast"] = capture(func() map[string]any {
+		a, err := regexast.Parse(pattern)
+		if err != nil {
+			return map[string]any{"outcome": "error", "error": err.Error()}
+		}
+		out := a.VerifDump()
+		out["outcome"] = "ok"
+		out["dfa"] = dumpDFA(a.ToDFA())
+		return out
+	})
+	return res
 }
 
 // opRegexParse only reports whether each entry point accepts the pattern (no automata are built from the result).
